@@ -159,13 +159,20 @@ Pool4 == {v \in Pool5 : v.type # "detector"}
 Pool3 == {v \in Pool4 : v.type # "area"}
 OldTyped == V("E", "energy", "unit" :> S(<<"MeV">>), "inc")
 OldTyped2 == V("t", "time", <<>>, "inc")
+SameType == V("electron", "particle", "latex" :> S(<<"e-">>), "inc")
 StartsAll ==
   { EmptyD,
     D("data" :> D("run" :> S(<<"r1">>))),
     D("variable" :> D("name" :> S(<<"old">>) @@ "unit" :> S(<<"u">>))),
     D("variable" :> VarContext(OldTyped)),
     D("variable" :> VarContext(OldTyped) @@ "data" :> D("run" :> S(<<"r1">>))),
-    D("variable" :> UpdateVar(VarContext(OldTyped2), VarContext(OldTyped))) }
+    D("variable" :> UpdateVar(VarContext(OldTyped2), VarContext(OldTyped))),
+    \* a pre-existing variable whose type equals the type of a pool variable (the chains are all
+    \* permutations, so the colliding member is first, in the middle and last): plain, as the
+    \* last and as an earlier type of an existing composition
+    D("variable" :> VarContext(SameType)),
+    D("variable" :> UpdateVar(VarContext(OldTyped2), VarContext(SameType))),
+    D("variable" :> UpdateVar(VarContext(SameType), VarContext(OldTyped))) }
 
 Emitted == Done => PrintT(ToJson([chain |-> chain, start |-> start, seq |-> sv, compose |-> cv, combine |-> bv,
                                   typed |-> AllTyped(chain) /\ DistinctTypes(chain),
